@@ -165,3 +165,112 @@ Proof.
   refine (proj1 (uri_host_port_is_pair host port Hh Hh0 Hp Hp0 _ Hr Hlp)).
   unfold host_port. rewrite app_length. cbn [length]. unfold AUTHORITY_MAX, HOST_MAX, SERV_MAX in *. lia.
 Qed.
+
+Section V6.
+Variables (hm sm : nat) (host serv : str).
+Hypothesis Hh : no_nul host.
+Hypothesis Hs : no_nul serv.
+Hypothesis Hlh : (length host < hm)%nat.
+Hypothesis Hls : (length serv < sm)%nat.
+
+Let lh := length host.
+Let ls := length serv.
+
+(* "[host]:serv" is what the in-place composition of to_string() yields for an IPv6 address *)
+Theorem to_string_v6 : to_string_gen hm sm true host serv = LBRACK :: host ++ RBRACK :: COLON :: serv.
+Proof.
+  unfold to_string_gen. cbv zeta.
+  replace (hm + 1 + 2)%nat with (hm + 3)%nat by lia.
+  (* the opening bracket *)
+  assert (E0 : set_at (repeat 0 (hm + sm + 3)) 0 LBRACK = [LBRACK] ++ Zs lh ++ Zs (hm + 2 - lh) ++ Zs ls ++ Zs (sm - ls)).
+  { replace (hm + sm + 3)%nat with (S (lh + ((hm + 2 - lh) + (ls + (sm - ls))))) by (unfold lh, ls in *; lia).
+    cbn [repeat set_at app]. f_equal. now rewrite !Zs_split. }
+  rewrite E0.
+  (* host written behind it *)
+  assert (E1 : write_at ([LBRACK] ++ Zs lh ++ Zs (hm + 2 - lh) ++ Zs ls ++ Zs (sm - ls)) 1 host
+               = [LBRACK] ++ host ++ Zs (hm + 2 - lh) ++ Zs ls ++ Zs (sm - ls)).
+  { set (rest := Zs (hm + 2 - lh) ++ Zs ls ++ Zs (sm - ls)).
+    rewrite write_at_spec by (unfold rest; rewrite !app_length, !repeat_length; cbn [length]; unfold lh, ls in *; lia).
+    replace ([LBRACK] ++ Zs lh ++ rest) with (([LBRACK] ++ Zs lh) ++ rest) by (rewrite <- app_assoc; reflexivity).
+    assert (L : length ([LBRACK] ++ Zs lh) = (1 + length host)%nat) by (rewrite app_length, repeat_length; reflexivity).
+    rewrite (skipn_exact (1 + length host) ([LBRACK] ++ Zs lh) rest (eq_sym L)).
+    cbn [app firstn]. reflexivity. }
+  rewrite E1.
+  (* the service behind the host area *)
+  set (pre := [LBRACK] ++ host ++ Zs (hm + 2 - lh)).
+  assert (Lpre : length pre = (hm + 3)%nat) by (unfold pre; rewrite !app_length, repeat_length; cbn [length]; unfold lh in *; lia).
+  assert (E2 : write_at ([LBRACK] ++ host ++ Zs (hm + 2 - lh) ++ Zs ls ++ Zs (sm - ls)) (hm + 3) serv = pre ++ serv ++ Zs (sm - ls)).
+  { replace ([LBRACK] ++ host ++ Zs (hm + 2 - lh) ++ Zs ls ++ Zs (sm - ls)) with (pre ++ Zs ls ++ Zs (sm - ls))
+      by (unfold pre; rewrite <- !app_assoc; reflexivity).
+    rewrite write_at_spec by (rewrite !app_length, !repeat_length, Lpre; unfold ls in *; lia).
+    rewrite (firstn_exact (hm + 3) pre _ (eq_sym Lpre)). f_equal. f_equal.
+    rewrite (app_assoc pre (Zs ls)). apply skipn_exact. rewrite app_length, repeat_length, Lpre. reflexivity. }
+  rewrite E2.
+  assert (Hz : exists k, Zs (sm - ls) = 0 :: Zs k).
+  { exists (sm - ls - 1)%nat. destruct (sm - ls)%nat as [|m] eqn:Em; [unfold ls in *; lia|]. cbn [repeat]. f_equal. f_equal. lia. }
+  destruct Hz as [k Hk]. rewrite Hk.
+  assert (EF : find_nul (pre ++ serv ++ 0 :: Zs k) (hm + 3) = (hm + 3 + ls)%nat).
+  { rewrite <- Lpre. apply (find_nul_spec _ serv 0 _ Hs). }
+  rewrite EF. unfold erase_from.
+  assert (E3 : firstn (hm + 3 + ls) (pre ++ serv ++ 0 :: Zs k) = pre ++ serv).
+  { rewrite (app_assoc pre serv). apply firstn_exact. rewrite app_length, Lpre. reflexivity. }
+  rewrite E3.
+  replace (hm + 3 - 1)%nat with (hm + 2)%nat by lia. replace (hm + 2 - 1)%nat with (hm + 1)%nat by lia.
+  (* colon, then closing bracket, over the last two terminators of the host area *)
+  assert (Hz2 : Zs (hm + 2 - lh) = Zs (hm - lh) ++ [0] ++ [0]).
+  { replace (hm + 2 - lh)%nat with ((hm - lh) + (1 + 1))%nat by (unfold lh in *; lia). rewrite Zs_split. reflexivity. }
+  set (hp := [LBRACK] ++ host ++ Zs (hm - lh)).
+  assert (Lhp : length hp = (hm + 1)%nat) by (unfold hp; rewrite !app_length, repeat_length; cbn [length]; unfold lh in *; lia).
+  assert (Epre : pre = hp ++ [0] ++ [0]) by (unfold pre, hp; rewrite Hz2, <- !app_assoc; reflexivity).
+  assert (E4 : set_at (pre ++ serv) (hm + 2) COLON = hp ++ [0] ++ COLON :: serv).
+  { rewrite Epre.
+    replace ((hp ++ [0] ++ [0]) ++ serv) with ((hp ++ [0]) ++ [0] ++ serv) by (rewrite <- !app_assoc; reflexivity).
+    assert (L1 : length (hp ++ [0]) = (hm + 2)%nat) by (rewrite app_length, Lhp; cbn [length]; lia).
+    rewrite set_at_spec by (rewrite app_length, L1; cbn [length app]; lia).
+    rewrite (firstn_exact (hm + 2) (hp ++ [0]) _ (eq_sym L1)). rewrite <- app_assoc. f_equal. f_equal. f_equal.
+    replace (S (hm + 2)) with (length ((hp ++ [0]) ++ [0])) by (rewrite app_length, L1; cbn [length]; lia).
+    replace ((hp ++ [0]) ++ [0] ++ serv) with (((hp ++ [0]) ++ [0]) ++ serv) by (rewrite <- !app_assoc; reflexivity).
+    apply skipn_app_exact. }
+  rewrite E4.
+  assert (E5 : set_at (hp ++ [0] ++ COLON :: serv) (hm + 1) RBRACK = hp ++ RBRACK :: COLON :: serv).
+  { rewrite set_at_spec by (rewrite app_length, Lhp; cbn [length app]; lia).
+    rewrite (firstn_exact (hm + 1) hp _ (eq_sym Lhp)). f_equal. f_equal.
+    replace (S (hm + 1)) with (length (hp ++ [0])) by (rewrite app_length, Lhp; cbn [length]; lia).
+    replace (hp ++ [0] ++ COLON :: serv) with ((hp ++ [0]) ++ COLON :: serv) by (rewrite <- !app_assoc; reflexivity).
+    apply skipn_app_exact. }
+  rewrite E5.
+  (* the end of the host text *)
+  assert (Hz3 : exists k3, Zs (hm - lh) = 0 :: Zs k3).
+  { exists (hm - lh - 1)%nat. destruct (hm - lh)%nat as [|m] eqn:Em; [unfold lh in *; lia|]. cbn [repeat]. f_equal. f_equal. lia. }
+  destruct Hz3 as [k3 Hk3].
+  assert (E6 : find_nul (hp ++ RBRACK :: COLON :: serv) 1 = (1 + lh)%nat).
+  { unfold hp. rewrite Hk3. rewrite <- !app_assoc. cbn [app].
+    pose proof (find_nul_spec [LBRACK] host 0 (Zs k3 ++ RBRACK :: COLON :: serv) Hh) as F. cbn [app length Nat.add] in F. exact F. }
+  rewrite E6. unfold erase_range.
+  replace (hm + 1 - (1 + lh))%nat with (hm - lh)%nat by lia.
+  assert (F1 : firstn (1 + lh) (hp ++ RBRACK :: COLON :: serv) = LBRACK :: host).
+  { unfold hp. replace (([LBRACK] ++ host ++ Zs (hm - lh)) ++ RBRACK :: COLON :: serv)
+      with (([LBRACK] ++ host) ++ Zs (hm - lh) ++ RBRACK :: COLON :: serv) by (rewrite <- !app_assoc; reflexivity).
+    apply firstn_exact. reflexivity. }
+  assert (F2 : skipn (1 + lh + (hm - lh)) (hp ++ RBRACK :: COLON :: serv) = RBRACK :: COLON :: serv).
+  { apply skipn_exact. rewrite Lhp. unfold lh in *. lia. }
+  rewrite F1, F2. reflexivity.
+Qed.
+End V6.
+
+(* text round-trip for the bracketed (IPv6) form *)
+Theorem text_round_trip_v6 : forall h6 port,
+  no_nul h6 -> forallb (fun c => negb (is_slash c)) h6 = true -> forallb (fun c => negb (is_newline c)) h6 = true ->
+  (length h6 < HOST_MAX)%nat ->
+  forallb is_digit port = true -> port <> [] -> (length port < SERV_MAX)%nat ->
+  check_service_range port = None ->
+  to_string_model true h6 port = bracket_port h6 port /\
+  uri_dissect (to_string_model true h6 port) = DOk h6 port true.
+Proof.
+  intros h6 port Hn Hs Hnl Hl Hp Hp0 Hlp Hr.
+  assert (E : to_string_model true h6 port = bracket_port h6 port).
+  { rewrite to_string_model_gen. apply to_string_v6; auto using digits_no_nul. }
+  split; [exact E|]. rewrite E.
+  apply uri_bracket_port_is_pair; try assumption.
+  unfold bracket_port. cbn [length]. rewrite app_length. cbn [length]. unfold AUTHORITY_MAX, HOST_MAX, SERV_MAX in *. lia.
+Qed.
